@@ -478,6 +478,9 @@ func (c *CaseC01) Eval(ob *Obs) []Finding {
 			}
 		}
 	}
+	if c.Only == nil && len(out) == 0 {
+		out = append(out, c.evalReuse(ob, m, L, exact)...)
+	}
 	if c.CLI && c.Only == nil {
 		out = append(out, c.evalCLI(ob, m)...)
 		if len(out) == 0 {
@@ -485,6 +488,78 @@ func (c *CaseC01) Eval(ob *Obs) []Finding {
 		}
 	}
 	return out
+}
+
+// evalReuse: one Resolver value (and, for comparison, the function) is used a second time after the
+// caller has changed the book - a name that was a basic element gets a recipe of its own. The result
+// must be what resolving the changed book from scratch gives.
+func (c *CaseC01) evalReuse(ob *Obs, m *refModel, L int, exact bool) []Finding {
+	if L+1 >= c.MaxDepth {
+		return nil
+	}
+	var basic []string
+	for _, n := range m.order {
+		for el := range m.resolved(n) {
+			basic = append(basic, el)
+		}
+	}
+	if len(basic) == 0 {
+		return nil
+	}
+	sort.Strings(basic)
+	x := basic[len(basic)/2]
+	added := Block{Head: x, Items: []Item{{"hrsim/y", "2"}, {"hrsim/z", "0.5"}}}
+	m2 := newRefModel(append(append([]Block{}, c.Book...), added))
+	for _, n := range m2.order {
+		m2.resolved(n)
+	}
+	text := render(c.Book, c.Layout)
+	for _, entry := range []string{"struct", "func"} {
+		db, err := parseBook(text)
+		if err != nil {
+			return nil
+		}
+		w := noFaultWorld()
+		w.Order = OrderPlan{Mode: "shuffle", Seed: c.Seeds[2]}
+		st := verifsim.InstallLight(w)
+		var e1, e2 error
+		pan := ""
+		func() {
+			defer func() {
+				if r := recover(); r != nil {
+					pan = fmt.Sprint(r)
+				}
+			}()
+			enterSUT()
+			defer leaveSUT()
+			cfg := resolver.Config{MaxDepth: c.MaxDepth}
+			r := resolver.NewResolver(db, cfg)
+			if entry == "struct" {
+				e1 = r.Resolve()
+			} else {
+				_, e1 = resolver.Resolve(cfg, db)
+			}
+			node := shared.NewParserNode(x)
+			node.Elements.Add("hrsim/y", 2)
+			node.Elements.Add("hrsim/z", 0.5)
+			db.Push(shared.NewDBNodeFromNode(node))
+			if entry == "struct" {
+				e2 = r.Resolve() // the same Resolver value
+			} else {
+				_, e2 = resolver.Resolve(cfg, db)
+			}
+		}()
+		st.UninstallLight()
+		ob.count("lib_evals", 2)
+		ob.probe("resolver_used_again_after_book_changed")
+		if pan != "" || e1 != nil || e2 != nil {
+			return []Finding{{"C01 reuse-after-change-fails entry=" + entry, fmt.Sprintf("errors %v / %v panic %q", e1, e2, pan)}}
+		}
+		if why := c.compareResolved(db, m2, exact); why != "" {
+			return []Finding{{"C01 reuse-after-change-wrong entry=" + entry, fmt.Sprintf("after %q (until then a basic element) was declared as a recipe and the book resolved again with the same resolver: %s", x, why)}}
+		}
+	}
+	return nil
 }
 
 func describePlan(p OrderPlan) string {
@@ -796,7 +871,17 @@ func (c *CaseC11) Eval(ob *Obs) []Finding {
 			for _, mode := range []string{"asc", "desc", "shuffle"} {
 				w := stdWorld(text, "2021/01/20:\n  kcal: 1\n")
 				w.Order = OrderPlan{Mode: mode, Seed: c.Seeds[0]}
-				w.Argv = Invocation{Shape: sh, Globals: []string{"--maxdepth", strconv.Itoa(c.MaxDepth)}}.Argv()
+				// the limit reaches the program by flag, by environment or by configuration file
+				var g []string
+				switch via := (c.Seeds[1] + uint64(len(sh)) + uint64(len(mode))) % 3; via {
+				case 0:
+					g = []string{"--maxdepth", strconv.Itoa(c.MaxDepth)}
+				case 1:
+					w.Env = map[string]string{"HR_MAXDEPTH": strconv.Itoa(c.MaxDepth)}
+				default:
+					w.Files = append(w.Files, FileSpec{Path: w.Home + "/.hranoprovod/config", Kind: "file", Data: "[Resolver]\nMaxDepth=" + strconv.Itoa(c.MaxDepth) + "\n", Plan: ReadPlan{FaultAt: -1}})
+				}
+				w.Argv = Invocation{Shape: sh, Globals: g}.Argv()
 				r := ob.run(w)
 				if r.Panic != "" {
 					out = append(out, Finding{"C11 cli-panics cmd=" + sh, r.Panic})
